@@ -8,7 +8,7 @@ from __future__ import annotations
 
 import random
 
-from .. import core, mdibops
+from .. import c02_ops, core, mdibops
 from ..history import History, first_difference, snap_equal, tolerant_equal, versions_of
 from ..mdibharness import MDIB_FILES, load_mdib_bytes
 
@@ -63,7 +63,9 @@ def check_transition(ctx, before: dict, after: dict, ap: mdibops.Applied, hist_l
     opk = op['op'] + ('.' + op['sub'] if op.get('sub') else '')
     if ap.expect in ('empty', 'abort', 'reject') or ap.outcome != 'ok':
         if va != vb:
-            ctx.witness(f'mdibversion.changed_by_{ap.expect}', f'MdibVersion changed by an {ap.expect} transaction', detail)
+            # (round 4: the operations of vf.c02_ops name the operation in the key, the older keys stay as they are)
+            ctx.witness(f'mdibversion.changed_by_{ap.expect}' + (f'.{opk}' if c02_ops.is_own(op) else ''),
+                        f'MdibVersion changed by an {ap.expect} transaction' + (f' ({ap.outcome})' if ap.expect == 'commit' else ''), detail)
         # (content equality after aborts is C03's business)
         return changed
     if changed and va != vb + 1:
@@ -99,11 +101,17 @@ def check_transition(ctx, before: dict, after: dict, ap: mdibops.Applied, hist_l
 
 
 WEIGHTS = dict(mdibops.DEFAULT_WEIGHTS, ctx_delete=2, exotic=1)   # provider only: removal of context states through the entity interface included
+P_OWN = 0.35   # share of the operations of a random history that come from vf.c02_ops
+
+
+def _apply(mdib, op, memo):
+    return c02_ops.apply_op(mdib, op, memo) if c02_ops.is_own(op) else mdibops.apply_op(mdib, op, memo)
 
 
 def w_histories(ctx: core.Ctx, arg):
     from sdc11073.mdib import ProviderMdib
     rng = ctx.rng('hist', arg['i'])
+    rng2 = ctx.rng('hist.own', arg['i'])   # own stream: the operations of vf.mdibops are drawn as before
     for hno in range(arg['n']):
         mdib_file = MDIB_FILES[(arg['i'] + hno) % len(MDIB_FILES)]
         mdib = ProviderMdib.from_string(load_mdib_bytes(mdib_file))
@@ -114,10 +122,19 @@ def w_histories(ctx: core.Ctx, arg):
         label = {'mdib_file': mdib_file, 'history': [arg['i'], hno]}
         ops_done = []
         for step in range(arg['len']):
-            op = mdibops.gen_op(rng, mdib, memo, WEIGHTS)
+            op = None
+            # own operations only after the fixed prelude of vf.mdibops (its shapes must meet the objects they were written for)
+            if '_prelude' in memo and not memo['_prelude'] and rng2.random() < P_OWN:
+                dead_ctx = sorted(h for (k, h) in hist.high_water if k == 'ctx' and h not in hist.last['ctx'])
+                op = c02_ops.gen_op(rng2, mdib, memo, dead_ctx)
+            if op is None:
+                op = mdibops.gen_op(rng, mdib, memo, WEIGHTS)
             before = hist.last
-            ap = mdibops.apply_op(mdib, op, memo)
+            seen = sum(ctx.witness_counts.values())
+            ap = _apply(mdib, op, memo)
             after = hist.record()
+            if c02_ops.is_own(op):
+                ctx.count(f'c2.{"skipped" if "skipped" in op else ap.expect + "." + ap.outcome.split(":")[0]}.{op["op"]}')
             ops_done.append(op)
             ctx.count(f'op.{op["op"]}')
             ctx.count(f'outcome.{ap.expect}.{ap.outcome.split(":")[0]}')
@@ -140,6 +157,10 @@ def w_histories(ctx: core.Ctx, arg):
                 for key, what, det in hist.problems:
                     ctx.witness(key + '.' + op['op'] + ('.' + op['sub'] if op.get('sub') else ''), what, {**det, 'op': op, **label, 'step': step})
                 hist.problems.clear()
+            if sum(ctx.witness_counts.values()) > seen:
+                # the MDIB is no longer in a legal state: what follows could not be judged (and would only produce follow-up witnesses)
+                ctx.count('histories.ended_at_violation')
+                break
         ctx.case(tuple(shapes), nontrivial=any(s[5] == 'ok' for s in shapes))
         if hno == 0 and arg['i'] == 0:
             ctx.sample({'mdib_file': mdib_file, 'ops': ops_done[:8], 'final_mdib_version': mdib.mdib_version})
@@ -234,19 +255,521 @@ def w_templates(ctx: core.Ctx, arg):
             ctx.case(('tmpl2', mdib_file, handle_kind, order))
 
 
+# ------------------------------------------------------------------------------------------------
+# round 4: directed cases for the operation kinds of vf.c02_ops (always executed, they guarantee the reach floors)
+# ------------------------------------------------------------------------------------------------
+def _fresh(base):
+    from sdc11073.mdib import ProviderMdib
+    mdib = ProviderMdib.from_string(base)
+    mdib.instance_id = 1
+    return mdib, History(mdib), {}
+
+
+def _opk(op):
+    return op['op'] + ('.' + op['sub'] if op.get('sub') else '')
+
+
+def run_ops(ctx, mdib, hist, memo, ops, label, family):
+    """a directed sequence on one MDIB; every transaction is judged by all monitors.  Returns the number of new witnesses."""
+    start = sum(ctx.witness_counts.values())
+    for step, op in enumerate(ops):
+        op.setdefault('seed', 7919 * (step + 1) + len(family))
+        op.setdefault('iface', 'classic')
+        before = hist.last
+        ap = _apply(mdib, op, memo)
+        after = hist.record()
+        opk = _opk(op)
+        lab = {**label, 'family': family, 'step': step, 'sequence': [_opk(o) for o in ops[:step + 1]]}
+        ctx.count(f'op.{op["op"]}')
+        if 'skipped' in op:
+            ctx.count(f'c2.skipped.{op["op"]}')
+            ctx.count(f'directed.{family}.skipped.{label.get("case")}.{op["skipped"]}')
+        else:
+            if c02_ops.is_own(op):
+                ctx.count(f'c2.{ap.expect}.{ap.outcome.split(":")[0]}.{op["op"]}')
+            ctx.count(f'directed.{family}.{ap.expect}.{ap.outcome.split(":")[0]}')
+        if ap.expect == 'commit' and ap.outcome != 'ok':
+            ctx.count(f'commit_raised.{opk}.{ap.outcome}')
+        changed = check_transition(ctx, before, after, ap, lab)
+        if changed:
+            ctx.count('transitions.with_changes')
+        old_problems = {(k, repr(d)) for k, _, d in structural_problems(before)}
+        for key, what, det in structural_problems(after):
+            if (key, repr(det)) not in old_problems:
+                ctx.witness(key + '.' + opk, what, {**det, 'op': op, **lab})
+        for key, what, det in hist.problems:
+            ctx.witness(key + '.' + opk, what, {**det, 'op': op, **lab})
+        hist.problems.clear()
+        ctx.case(('directed', family, label.get('mdib_file'), label.get('case')) + mdibops.op_shape(ap), nontrivial=bool(changed))
+        if sum(ctx.witness_counts.values()) > start:
+            break   # what follows a violation cannot be judged
+    return sum(ctx.witness_counts.values()) - start
+
+
+def _pick_targets(mdib):
+    """handles the directed cases work on: a leaf metric with state below a channel below a vmd, and a context descriptor"""
+    cat = mdibops.catalog(mdib)
+    t = {'cat': cat}
+    for ch in cat['channel']:
+        kids = sorted(d.Handle for d in mdib.descriptions.parent_handle.get(ch, []) if d.Handle in cat['metric']
+                      and mdib.states.descriptor_handle.get_one(d.Handle, allow_none=True) is not None)
+        numeric = [k for k in kids if mdib.descriptions.handle.get_one(k).NODETYPE.localname == 'NumericMetricDescriptor']
+        if numeric:   # (the re-creation of vf.mdibops creates numeric metrics)
+            up = c02_ops.ancestors(mdib, ch)
+            t.update(metric=numeric[0], metric2=kids[-1] if kids[-1] != numeric[0] else kids[0], channel=ch, vmd=up[0], mds=up[-1])
+            break
+    t['other_kinds'], t['ancestors'] = [], {}
+    for name, pool in (('alert', cat['alert']), ('operation', cat['operational'])):
+        for h in reversed(pool):   # (alert conditions / signals are listed after their alert system)
+            up = c02_ops.ancestors(mdib, h)
+            if up and up[0] in pool + cat['component'] and up[0] not in cat['mds'] and not mdib.descriptions.parent_handle.get(h):
+                t['other_kinds'].append((name, h))
+                t['ancestors'][h] = up
+                break
+    if cat['context']:
+        t['ctx'] = cat['context'][-1]   # PatientContext in all sample files
+        t['ctx_other'] = cat['context'][0]
+        up = c02_ops.ancestors(mdib, t['ctx'])
+        t.update(sc=up[0], ctx_mds=up[-1])
+    return t
+
+
+def _ctx_prelude(t):
+    """the context descriptor of the directed cases owns two states (one associated)"""
+    return [{'op': 'context', 'sub': 'new', 'descr': t['ctx'], 'new_handle': 'c2_p1'},
+            {'op': 'context', 'sub': 'new_assoc', 'descr': t['ctx'], 'new_handle': 'c2_p2'}]
+
+
+def _between(kind, h, t):
+    """transactions that happen between reading an entity and writing it"""
+    if kind == 'classic_update_x2':
+        return [{'op': 'descr_update', 'handles': [h], 'iface': 'classic'}, {'op': 'descr_update', 'handles': [h], 'iface': 'classic'}]
+    if kind == 'entity_update':
+        return [{'op': 'descr_update', 'handles': [h], 'iface': 'entity'}]
+    if kind == 'state_update':
+        return [{'op': t['_state_op'], 'handles': [h], 'iface': 'classic'}] if t['_state_op'] != 'context' else \
+               [{'op': 'context', 'sub': 'update2', 'descr': h, 'handles': ['c2_p1', 'c2_p2'], 'new_handle': 'unused'}]
+    if kind == 'child_added':
+        return [{'op': 'descr_create', 'parent': h, 'handle': 'c2_kid', 'with_state': True, 'iface': 'classic'}]
+    if kind == 'ctx_state_added_and_removed':
+        return [{'op': 'context', 'sub': 'new', 'descr': h, 'new_handle': 'c2_p3'},
+                {'op': 'ctx_delete', 'sub': 'delete', 'descr': h, 'victims': ['c2_p1'], 'other': None, 'new_handle': 'unused', 'iface': 'entity'}]
+    if kind == 'deleted':
+        return [{'op': 'descr_delete', 'handle': h, 'iface': 'classic'}]
+    if kind == 'deleted_and_recreated_updated':   # (numeric metric only)
+        return [{'op': 'descr_delete', 'handle': h, 'iface': 'classic'},
+                {'op': 'descr_create', 'parent': t['channel'], 'handle': h, 'with_state': True, 'recreate': True, 'iface': 'classic'},
+                {'op': 'descr_update', 'handles': [h], 'iface': 'classic'}]
+    raise KeyError(kind)
+
+
+def _stale_cases(t):
+    cases = []
+    targets = []
+    if 'metric' in t:
+        targets += [('metric', t['metric'], 'metric'), ('channel', t['channel'], 'component')]
+    cat = t['cat']
+    if cat['alert']:
+        targets.append(('alert', cat['alert'][-1], 'alert'))
+    if cat['operational']:
+        targets.append(('operation', cat['operational'][0], 'operational'))
+    if 'ctx' in t:
+        targets.append(('context', t['ctx'], 'context'))
+    for name, h, state_op in targets:
+        between = ['classic_update_x2', 'entity_update', 'state_update']
+        if name == 'channel':
+            between.append('child_added')
+        if name == 'context':
+            between += ['ctx_state_added_and_removed', 'deleted']
+        if name == 'metric':
+            between += ['deleted', 'deleted_and_recreated_updated']
+        for b in between:
+            if name == 'context':
+                trs = [('descriptor', None), ('context', 'update_state'), ('context', 'new_state'), ('context', 'update_and_new')]
+                if b == 'deleted':
+                    trs = trs[:1]
+            else:
+                trs = [('descriptor', None)] + ([('state', None)] if b != 'deleted' else [])
+            for tr, variant in trs:
+                for refresh in ([False, True] if name == 'context' and tr == 'descriptor' and b != 'deleted' else [False]):
+                    cases.append({'case': f'{name}.{b}.{tr}{"." + variant if variant else ""}{".refreshed" if refresh else ""}',
+                                  'h': h, 'state_op': state_op, 'between': b, 'tr': tr, 'variant': variant, 'refresh': refresh,
+                                  'multi': name == 'context'})
+    return cases
+
+
+def w_directed_stale(ctx: core.Ctx, arg):
+    """an entity is read, other transactions re-version / change / delete the object, then the kept entity object is written (twice)"""
+    mdib_file = MDIB_FILES[arg['i'] % len(MDIB_FILES)]
+    base = load_mdib_bytes(mdib_file)
+    mdib, _, _ = _fresh(base)
+    t = _pick_targets(mdib)
+    for n, c in enumerate(_stale_cases(t)):
+        if arg.get('thin') and n % 2 != arg['i'] % 2:
+            continue
+        mdib, hist, memo = _fresh(base)
+        t['_state_op'] = c['state_op']
+        h = c['h']
+
+        def write(keep, mutate, k=c, hh=h, n2=[0]):  # noqa: B006
+            n2[0] += 1
+            op = {'op': 'c2_write_stale', 'handle': hh, 'tr': k['tr'], 'keep': keep, 'refresh': k['refresh'], 'mutate': mutate,
+                  'sub': f'{k["tr"]}_tr.' + ('multi' if k['multi'] else 'single') + ('.' + k['variant'] if k['variant'] else '')}
+            if k['variant']:
+                op.update(variant=k['variant'], new_handle=f'c2_stale_new{n2[0]}')
+            return op
+        ops = (_ctx_prelude(t) if c['multi'] else []) + [{'op': 'c2_stash', 'handle': h}] + _between(c['between'], h, t)
+        ops += [write(True, 'both'), write(True, 'descr' if c['tr'] == 'descriptor' else 'state'), write(False, 'none')]
+        if c['between'] != 'deleted' or c['tr'] == 'descriptor':
+            ops.append({'op': 'descr_update', 'handles': [h], 'iface': 'classic'})
+        run_ops(ctx, mdib, hist, memo, ops, {'mdib_file': mdib_file, 'case': c['case']}, 'stale_entity')
+
+
+def _subtree_cases(t):
+    cases = []
+    if 'metric' in t:
+        m, m2, ch = t['metric'], t['metric2'], t['channel']
+        variants = [('update.classic', [['update', m, 'classic']]), ('update.entity', [['update', m, 'entity']]),
+                    ('update_with_state', [['update_with_state', m]]), ('entity_with_state', [['entity_with_state', m]]),
+                    ('add_child.classic', [['add_child', 'c2_new_kid', ch, 'classic']]), ('add_child.entity', [['add_child', 'c2_new_kid', ch, 'entity']]),
+                    ('mixed', [['update', m, 'classic'], ['add_child', 'c2_new_kid', ch, 'entity']] + ([['update_with_state', m2]] if m2 != m else []))]
+        for level, anc in (('parent', ch), ('grandparent', t['vmd']), ('root', t['mds'])):
+            for vname, steps in variants:
+                for order in ('touch_first', 'remove_first'):
+                    cases.append({'case': f'single.{level}.{vname}.{order}', 'anc': anc, 'steps': steps, 'order': order, 'ctx': False})
+            if anc != ch:   # the channel itself (a component with state) is touched, something above it is removed
+                for order in ('touch_first', 'remove_first'):
+                    cases.append({'case': f'single.{level}.update_channel_with_state.{order}', 'anc': anc, 'steps': [['update_with_state', ch], ['update', m, 'entity']],
+                                  'order': order, 'ctx': False})
+    for name, h in t.get('other_kinds', []):   # alert condition below its alert system, operation below its sco: the other update dictionaries
+        up = t['ancestors'][h]
+        for level, anc in [('parent', up[0])] + ([('root', up[-1])] if len(up) > 1 else []):
+            for vname, steps in (('update.classic', [['update', h, 'classic']]), ('update_with_state', [['update_with_state', h]]),
+                                 ('entity_with_state', [['entity_with_state', h]])):
+                for order in ('touch_first', 'remove_first'):
+                    cases.append({'case': f'single.{name}.{level}.{vname}.{order}', 'anc': anc, 'steps': steps, 'order': order, 'ctx': False})
+    if 'ctx' in t:
+        cd = t['ctx']
+        variants = [('update.classic', [['update', cd, 'classic']]), ('update.entity', [['update', cd, 'entity']]),
+                    ('ctx_entity.update_state', [['ctx_entity', cd, 'update_state', None]]),
+                    ('ctx_entity.add_state', [['ctx_entity', cd, 'add_state', 'c2_p9']]),
+                    ('ctx_entity.update_descr_only', [['ctx_entity', cd, 'update_descr_only', None]])]
+        if t['ctx_other'] != cd:
+            variants.append(('two_context_descriptors', [['update', t['ctx_other'], 'classic'], ['ctx_entity', cd, 'update_state', None]]))
+        for level, anc in (('parent', t['sc']), ('root', t['ctx_mds'])):
+            for vname, steps in variants:
+                for order in ('touch_first', 'remove_first'):
+                    cases.append({'case': f'context.{level}.{vname}.{order}', 'anc': anc, 'steps': steps, 'order': order, 'ctx': True})
+    return cases
+
+
+def w_directed_subtree(ctx: core.Ctx, arg):
+    """descendants are touched and an ancestor is removed in ONE descriptor transaction, both orders; then the survivors are used again"""
+    mdib_file = MDIB_FILES[arg['i'] % len(MDIB_FILES)]
+    base = load_mdib_bytes(mdib_file)
+    mdib, _, _ = _fresh(base)
+    t = _pick_targets(mdib)
+    for n, c in enumerate(_subtree_cases(t)):
+        if arg.get('thin') and n % 2 != arg['i'] % 2:
+            continue
+        mdib, hist, memo = _fresh(base)
+        op = {'op': 'c2_subtree', 'anc': c['anc'], 'steps': c['steps'], 'order': c['order'], 'remove_iface': ('classic', 'entity')[n % 2],
+              'context': c['ctx']}
+        op['sub'] = c02_ops.subtree_sub(op)
+        ops = (_ctx_prelude(t) + [{'op': 'context', 'sub': 'new', 'descr': t['ctx_other'], 'new_handle': 'c2_p4'}] if c['ctx'] else []) + [op]
+        if run_ops(ctx, mdib, hist, memo, ops, {'mdib_file': mdib_file, 'case': c['case']}, 'subtree'):
+            continue
+        # the parent of the removed descriptor (if any) is alive: it and a surviving state are used again
+        follow = []
+        cat = mdibops.catalog(mdib)
+        if cat['vmd']:
+            follow.append({'op': 'descr_update', 'handles': [cat['vmd'][0]], 'iface': 'entity'})
+        if cat['metric']:
+            follow.append({'op': 'metric', 'handles': cat['metric'][:2], 'iface': 'classic'})
+        run_ops(ctx, mdib, hist, memo, follow, {'mdib_file': mdib_file, 'case': c['case'] + '.follow_up'}, 'subtree')
+
+
+def w_directed_recreate(ctx: core.Ctx, arg):
+    """handles that the MDIB has seen before come back: context states (4 ways), a context descriptor with its states, a channel with its metrics"""
+    mdib_file = MDIB_FILES[arg['i'] % len(MDIB_FILES)]
+    base = load_mdib_bytes(mdib_file)
+    mdib, _, _ = _fresh(base)
+    t = _pick_targets(mdib)
+    label = {'mdib_file': mdib_file}
+    ways = ['mk_context_state', 'add_state', 'entity_ctx_tr', 'entity_descr_tr']
+    if 'ctx' in t:
+        cd, other = t['ctx'], t['ctx_other']
+        upd = lambda hs: {'op': 'context', 'sub': 'update2', 'descr': cd, 'handles': hs, 'new_handle': 'unused'}  # noqa: E731
+        removals = {'ctx_delete': lambda v: {'op': 'ctx_delete', 'sub': 'delete', 'descr': cd, 'victims': [v], 'other': None, 'new_handle': 'unused', 'iface': 'entity'},
+                    'descr_ctx_entity.remove_state': lambda v: {'op': 'descr_ctx_entity', 'sub': 'remove_state', 'descr': cd, 'state': v, 'new_handle': 'unused',
+                                                                'iface': 'entity'}}
+        for rname, rm in removals.items():
+            for wi, way in enumerate(ways):
+                mdib, hist, memo = _fresh(base)
+                again = ways[(wi + 1) % len(ways)]
+                ops = _ctx_prelude(t) + [upd(['c2_p1', 'c2_p2']), upd(['c2_p1']), upd(['c2_p1']), rm('c2_p1'),
+                                         {'op': 'c2_ctx_recreate', 'sub': way, 'descr': cd, 'handle': 'c2_p1', 'abort_at': 'end'},   # aborted once
+                                         {'op': 'c2_ctx_recreate', 'sub': way, 'descr': cd, 'handle': 'c2_p1'},
+                                         upd(['c2_p1']), rm('c2_p1'),
+                                         {'op': 'c2_ctx_recreate', 'sub': again, 'descr': other, 'handle': 'c2_p1'},   # now below the other descriptor
+                                         {'op': 'context', 'sub': 'update', 'descr': other, 'handles': ['c2_p1'], 'new_handle': 'unused'}]
+                run_ops(ctx, mdib, hist, memo, ops, {**label, 'case': f'ctx_state.{rname}.{way}'}, 'recreate')
+        # a context descriptor and its states, created / updated / removed / created again (both interfaces, also mixed)
+        for i1 in ('classic', 'entity'):
+            for i2 in ('classic', 'entity'):
+                mdib, hist, memo = _fresh(base)
+                mk = lambda iface, sub, **kw: {'op': 'c2_ctxdescr_create', 'sub': sub, 'parent': t['sc'], 'handle': 'c2_ens', 'states': ['c2_ens.s0', 'c2_ens.s1'],  # noqa: E731
+                                               'iface': iface, **kw}
+                upd2 = {'op': 'context', 'sub': 'update2', 'descr': 'c2_ens', 'handles': ['c2_ens.s0', 'c2_ens.s1'], 'new_handle': 'unused'}
+                ops = [mk(i1, 'new'), upd2, dict(upd2), {'op': 'descr_update', 'handles': ['c2_ens'], 'iface': i2}, dict(upd2, handles=['c2_ens.s0']),
+                       {'op': 'descr_delete', 'handle': 'c2_ens', 'iface': i2}, mk(i2, 'again', abort_at='middle'), mk(i2, 'again'), dict(upd2),
+                       {'op': 'descr_delete', 'handle': 'c2_ens', 'iface': i1},
+                       {'op': 'c2_ctx_recreate', 'sub': 'mk_context_state', 'descr': cd, 'handle': 'c2_ens.s1'}, mk(i1, 'again', states=['c2_ens.s0'])]
+                run_ops(ctx, mdib, hist, memo, ops, {**label, 'case': f'ctx_descriptor.{i1}.{i2}'}, 'recreate')
+    if 'vmd' in t:
+        for iface in ('classic', 'entity'):
+            mdib, hist, memo = _fresh(base)
+            mk = lambda sub, **kw: {'op': 'c2_tree_create', 'sub': sub, 'vmd': t['vmd'], 'channel': 'c2_ch', 'metrics': ['c2_ch.m0', 'c2_ch.m1'], **kw}  # noqa: E731
+            ops = [mk('new'), {'op': 'metric', 'handles': ['c2_ch.m0', 'c2_ch.m1'], 'iface': iface}, {'op': 'descr_update', 'handles': ['c2_ch', 'c2_ch.m0'], 'iface': iface},
+                   {'op': 'component', 'handles': ['c2_ch'], 'iface': iface}, {'op': 'descr_delete', 'handle': 'c2_ch', 'iface': iface},
+                   mk('again', abort_at='middle'), mk('again', abort_at='end'), mk('again'), {'op': 'metric', 'handles': ['c2_ch.m1'], 'iface': iface},
+                   {'op': 'descr_delete', 'handle': 'c2_ch.m1', 'iface': iface}, {'op': 'descr_delete', 'handle': 'c2_ch', 'iface': 'classic'},
+                   mk('again'), {'op': 'descr_update', 'handles': ['c2_ch.m1'], 'iface': iface}]
+            run_ops(ctx, mdib, hist, memo, ops, {**label, 'case': f'tree.{iface}'}, 'recreate')
+
+
+def w_directed_misc(ctx: core.Ctx, arg):
+    """get_descriptor + get_state for every kind of single state descriptor; write_entities in arbitrary order"""
+    mdib_file = MDIB_FILES[arg['i'] % len(MDIB_FILES)]
+    base = load_mdib_bytes(mdib_file)
+    mdib, hist, memo = _fresh(base)
+    t = _pick_targets(mdib)
+    cat = t['cat']
+    label = {'mdib_file': mdib_file}
+    ops = []
+    for kind, pool in (('component', [h for h in (t.get('channel'), t.get('vmd')) if h]), ('operational', cat['operational'][:1]), ('rt', cat['rt'][:1]),
+                       ('alert', cat['alert'][:1] + cat['alert'][-1:]), ('metric', cat['metric'][:1])):
+        for h in pool:
+            for order, iface in (('descr_first', 'classic'), ('state_after_mutation', 'classic'), ('descr_first', 'entity')):
+                ops.append({'op': 'c2_descr_state', 'sub': f'{kind}.' + ('entity' if iface == 'entity' else order), 'handle': h, 'order': order, 'iface': iface})
+            ops.append({'op': kind, 'handles': [h], 'iface': 'classic'})
+    run_ops(ctx, mdib, hist, memo, ops, {**label, 'case': 'descr_state'}, 'descr_state')
+    if 'metric' in t:
+        # several related descriptors in ONE classic transaction (the shapes of vf.mdibops 'descr_multi', here not left to the random draw)
+        m, m2, ch, vmd = t['metric'], t['metric2'], t['channel'], t['vmd']
+        multi = {'two_children': [['create', 'c2_a', ch], ['create', 'c2_b', ch]],
+                 'child_then_parent': [['delete', m], ['delete', ch]], 'parent_then_child': [['delete', ch], ['delete', m]],
+                 'child_then_grandparent': [['delete', m], ['delete', vmd]], 'grandparent_then_child': [['delete', vmd], ['delete', m]],
+                 'create_then_delete_parent': [['create', 'c2_a', ch], ['delete', ch]],
+                 'create_and_delete_sibling': [['create', 'c2_a', ch], ['delete', m]], 'recreate_in_one': [['delete', m], ['create', m, ch]]}
+        if m2 != m:
+            multi['delete_two_siblings'] = [['delete', m], ['delete', m2]]
+            multi['create_and_delete_sibling#2'] = [['delete', m2], ['create', 'c2_a', ch]]
+        for sub, steps in multi.items():
+            mdib, hist, memo = _fresh(base)
+            ops = [{'op': 'descr_multi', 'sub': sub.split('#')[0], 'steps': steps, 'iface': 'classic'}]
+            ops.append({'op': 'descr_update', 'handles': [[v for v in cat['vmd'] if v != vmd][-1]], 'iface': 'entity'})
+            run_ops(ctx, mdib, hist, memo, ops, {**label, 'case': f'descr_multi.{sub}'}, 'descr_multi')
+        mdib, hist, memo = _fresh(base)
+        fam = [t['metric'], t['channel'], t['vmd']] + ([t['ctx']] if 'ctx' in t else []) + ([t['metric2']] if t['metric2'] != t['metric'] else [])
+        rng = ctx.rng('we', arg['i'])
+        ops = _ctx_prelude(t) if 'ctx' in t else []
+        for _ in range(4):
+            hs = fam[:]
+            rng.shuffle(hs)
+            ops.append({'op': 'c2_write_entities', 'sub': 'descriptor', 'handles': hs})
+        ops.append({'op': 'c2_write_entities', 'sub': 'descriptor', 'handles': fam[:2], 'abort_at': 'end'})
+        for kind in ('metric', 'alert', 'component', 'operational'):
+            if len(cat[kind]) >= 2:
+                ops.append({'op': 'c2_write_entities', 'sub': 'state', 'kind': kind, 'handles': cat[kind][:3]})
+        run_ops(ctx, mdib, hist, memo, ops, {**label, 'case': 'write_entities'}, 'write_entities')
+
+
+def w_writers(ctx: core.Ctx, arg):  # noqa: C901, PLR0915
+    """two / four writer threads.  The statement is decided from inside every commit (observable ``transaction``, fired under the mdib lock)
+    and at the end: n commits with changes = MdibVersion + n, every intermediate version seen exactly once, counters never fall."""
+    import threading
+    import time
+
+    from sdc11073 import observableproperties as properties
+    base = load_mdib_bytes('mdib_tns.xml')
+    pairs = [('metric', 'metric'), ('metric', 'descriptor'), ('descriptor', 'context'), ('alert', 'component'), ('context', 'metric'),
+             ('descriptor', 'descriptor')]
+    rng = ctx.rng('writers')
+
+    def body(mdib, kind, cat, slot, seed):
+        """one transaction body of the given kind on objects that only this writer uses"""
+        if kind == 'descriptor':
+            return {'op': 'descr_update', 'handles': [cat['metric'][slot]], 'iface': 'classic', 'seed': seed}
+        if kind == 'context':
+            return {'op': 'context', 'sub': 'new', 'descr': cat['context'][0], 'new_handle': f'w{slot}_{seed}', 'iface': 'classic', 'seed': seed}
+        return {'op': kind, 'handles': [cat[kind][slot]], 'iface': 'classic', 'seed': seed}
+
+    def judge(mdib, hist, seen, v0, n_commits, label, key):
+        final = hist.record()
+        hist_versions = sorted(seen)
+        if mdib.mdib_version != v0 + n_commits or hist_versions != list(range(v0 + 1, v0 + n_commits + 1)):
+            ctx.witness(f'mdibversion.concurrent_writers.{key}', f'{n_commits} transactions with changes were committed by concurrent writers, '
+                        f'MdibVersion went from {v0} to {mdib.mdib_version}', {**label, 'versions_seen_inside_the_commits': hist_versions})
+        for k, what, det in structural_problems(final):
+            ctx.witness(f'{k}.concurrent_writers.{key}', what, {**det, **label})
+        for k, what, det in hist.problems:
+            ctx.witness(f'{k}.concurrent_writers.{key}', what, {**det, **label})
+
+    # (a) directed overlap: B starts its transaction while A is inside the body of its own
+    for ka, kb in pairs:
+        mdib, hist, _ = _fresh(base)
+        cat = mdibops.catalog(mdib)
+        v0 = mdib.mdib_version
+        seen = []
+
+        def on_commit(_result, hist=hist, seen=seen, mdib=mdib):
+            seen.append(mdib.mdib_version)
+            hist.record()
+        properties.strongbind(mdib, transaction=on_commit)
+        a_inside, b_trying = threading.Event(), threading.Event()
+        op_a, op_b = body(mdib, ka, cat, 0, 11), body(mdib, kb, cat, 1, 12)
+        outcomes = {}
+
+        def run_a(mdib=mdib, op=op_a, outcomes=outcomes):
+            # the body of A signals from inside the open transaction: pre_commit_handler runs inside the transaction, before the commit
+            def pre_commit(_mdib, _tr):
+                a_inside.set()
+                b_trying.wait(20)      # safety net only, normally returns at once
+                time.sleep(0.05)       # gives B the time to run into the lock (sensitivity only: the verdict never depends on it)
+            mdib.pre_commit_handler = pre_commit
+            outcomes['a'] = mdibops.apply_op(mdib, op, {}).outcome
+
+        def run_b(mdib=mdib, op=op_b, outcomes=outcomes):
+            a_inside.wait(20)
+            b_trying.set()
+            outcomes['b'] = mdibops.apply_op(mdib, op, {}).outcome
+        ta, tb = threading.Thread(target=run_a, daemon=True), threading.Thread(target=run_b, daemon=True)
+        ta.start()
+        tb.start()
+        ta.join(60)
+        tb.join(60)
+        if ta.is_alive() or tb.is_alive() or outcomes.get('a') != 'ok' or outcomes.get('b') != 'ok':
+            ctx.not_decided(f'writer threads did not finish / raised ({ka},{kb}): {outcomes}')
+            continue
+        ctx.count('writers.overlap')
+        judge(mdib, hist, seen, v0, 2, {'kinds': [ka, kb], 'case': 'overlap'}, 'overlap')
+        ctx.case(('writers', 'overlap', ka, kb))
+    # (c) "at all times": a reader that takes the mdib lock in the middle of a commit (descriptor already written / removed, its state not yet)
+    #     must not get it before the commit is complete.  The writer stops at the hook for a moment (sensitivity only: on a correct tree
+    #     the reader is blocked for the whole commit whatever the timing is, and then sees the committed MDIB).
+    from ..history import snap
+    for target, hook_name, opname in (('channel', 'update_object_no_lock', 'descr_update'), ('metric', 'update_object_no_lock', 'descr_update'),
+                                      ('context', 'update_object_no_lock', 'descr_update'), ('channel', 'remove_object', 'descr_delete'),
+                                      ('context', 'remove_object', 'descr_delete')):
+        mdib, hist, _ = _fresh(base)
+        cat = mdibops.catalog(mdib)
+        h = cat[target][-1]
+        if target == 'context' and not mdib.context_states.descriptor_handle.get(h):
+            continue
+        reader_go, reader_done = threading.Event(), threading.Event()
+        found = []
+        orig = getattr(mdib.descriptions, hook_name)
+
+        def hooked(*a, orig=orig, reader_go=reader_go, reader_done=reader_done, **kw):
+            r = orig(*a, **kw)
+            if not reader_go.is_set():
+                reader_go.set()
+                reader_done.wait(0.2)
+            return r
+        setattr(mdib.descriptions, hook_name, hooked)
+
+        def reader(mdib=mdib, found=found, reader_go=reader_go, reader_done=reader_done):
+            reader_go.wait(20)
+            with mdib.mdib_lock:
+                found.append((mdib.mdib_version, structural_problems(snap(mdib))))
+            reader_done.set()
+        th = threading.Thread(target=reader, daemon=True)
+        th.start()
+        v_before = mdib.mdib_version
+        op = {'op': opname, 'handles': [h], 'handle': h, 'iface': 'classic', 'seed': 5}
+        out = mdibops.apply_op(mdib, op, {}).outcome
+        th.join(60)
+        if th.is_alive() or out != 'ok' or not found:
+            ctx.not_decided(f'reader in the middle of a commit did not finish ({target}, {opname}): {out}')
+            continue
+        ctx.count('writers.reader_mid_commit')
+        for k, what, det in found[0][1]:
+            ctx.witness(f'{k}.reader_mid_commit.{opname}', what + ' (seen by a reader that holds the mdib lock while a commit is in progress)',
+                        {**det, 'target': h, 'mdib_version_seen': found[0][0]})
+        judge(mdib, hist, [mdib.mdib_version], v_before, 1, {'case': 'reader_mid_commit', 'target': h}, 'reader_mid_commit')
+        ctx.case(('writers', 'reader', target, opname))
+    # (b) free running: 4 writers, each with its own objects
+    for rnd in range(arg['rounds']):
+        mdib, hist, _ = _fresh(base)
+        cat = mdibops.catalog(mdib)
+        v0 = mdib.mdib_version
+        seen = []
+
+        def on_commit2(_result, hist=hist, seen=seen, mdib=mdib):
+            seen.append(mdib.mdib_version)
+            hist.record()
+        properties.strongbind(mdib, transaction=on_commit2)
+        plans = []
+        for w in range(4):
+            kinds = [rng.choice(['metric', 'metric', 'alert', 'component', 'descriptor', 'context']) for _ in range(arg['per_writer'])]
+            plans.append([body(mdib, k, cat, w, rng.randrange(1 << 30)) for k in kinds])
+        bad = []
+        go = threading.Barrier(4)
+
+        def writer(plan, mdib=mdib, bad=bad, go=go):
+            go.wait(20)
+            for op in plan:
+                out = mdibops.apply_op(mdib, op, {}).outcome
+                if out != 'ok':
+                    bad.append((op, out))
+        threads = [threading.Thread(target=writer, args=(p,), daemon=True) for p in plans]
+        for th in threads:
+            th.start()
+        for th in threads:
+            th.join(120)
+        if any(th.is_alive() for th in threads) or bad:
+            ctx.not_decided(f'free running writers did not finish / raised: {bad[:2]}')
+            continue
+        n = sum(len(p) for p in plans)
+        ctx.count('writers.free_running_commits', n)
+        judge(mdib, hist, seen, v0, n, {'case': 'free_running', 'round': rnd}, 'free_running')
+        ctx.case(('writers', 'free', tuple(tuple(o['op'] for o in p) for p in plans)))
+
+
 def run(ctx: core.Ctx):
     ctx.rule = ('seeded transaction histories over the 4 sample MDIBs (state / context / rt / descriptor create-update-delete-recreate / '
                 'parent+child and descriptor+state in one transaction in both orders / location / empty / aborted / rejected; classic and entity '
-                'interface); distinct = sequence of (op kind, sub kind, interface, abort point, #handles, outcome); non-trivial = at least one '
-                'transaction committed.  Plus the explicit template enumeration.')
+                'interface; after the prelude a third of the operations from vf.c02_ops: kept entities written later in descriptor / context / state transactions, '
+                'descendants touched + ancestor removed in one transaction, context state handles / context descriptors / channel subtrees created '
+                'again, get_descriptor+get_state for every state kind, write_entities); a history ends at its first violation; '
+                'distinct = sequence of (op kind, sub kind, interface, abort point, #handles, outcome); non-trivial = at least one '
+                'transaction committed.  Plus the explicit template enumeration and the directed cases of round 4 (every case on a fresh MDIB), '
+                'plus writer threads (overlapping and free running).')
+    ctx.assumptions += ['callers that pass adjust_version_counter=False / adjust_*_version=False supply the versions themselves: not exercised',
+                        '"at all times" is decided after every transaction and from inside every commit of the writer-thread cases (under the mdib lock)']
     n_hist, length = (320, 30) if ctx.quick else (9600, 60)
     jobs = [['w_histories', {'i': k, 'n': n_hist // 16, 'len': length}] for k in range(16)]
     jobs += [['w_templates', {'i': k, 'max_channels': 2 if ctx.quick else 50}] for k in range(4)]
+    for k in range(4):
+        thin = ctx.quick and k < 2   # the two 70041 files have the same structure: in the quick tier each runs every second case
+        jobs += [['w_directed_stale', {'i': k, 'thin': thin}], ['w_directed_subtree', {'i': k, 'thin': thin}],
+                 ['w_directed_recreate', {'i': k}], ['w_directed_misc', {'i': k}]]
+    jobs.append(['w_writers', {'rounds': 3 if ctx.quick else 40, 'per_writer': 12}])
     core.fanout(ctx, MODULE, 'dispatch', jobs)
     ctx.floor('transitions.with_changes', 2000)
     for kind in ('metric', 'alert', 'component', 'operational', 'context', 'rt', 'descr_update', 'descr_create', 'descr_delete', 'descr_parent_child',
                  'descr_with_state', 'location'):
         ctx.floor(f'op.{kind}', 20)
+    # round 4: every own operation kind was committed often enough, every directed family ran, the writers overlapped
+    for kind, n in (('c2_write_stale', 150), ('c2_subtree', 60), ('c2_ctx_recreate', 40), ('c2_tree_create', 10), ('c2_ctxdescr_create', 10),
+                    ('c2_descr_state', 30), ('c2_write_entities', 20)):
+        ctx.floor(f'c2.commit.ok.{kind}', n)
+    for family, n in (('stale_entity', 300), ('subtree', 100), ('recreate', 200), ('descr_state', 40), ('write_entities', 20), ('descr_multi', 40)):
+        ctx.floor(f'directed.{family}.commit.ok', n)
+    ctx.floor('writers.overlap', 6)
+    ctx.floor('writers.reader_mid_commit', 5)
+    ctx.floor('writers.free_running_commits', 100)
 
 
 def dispatch(ctx: core.Ctx, job):
